@@ -404,11 +404,41 @@ def field_sym(eng, root, path, rng=None):
     return eng.sym_ids.get(("init", root, tuple(path)))
 
 
+_ACTIVE = []
+_CUTS = []     # one set per active evaluation: the rules whose (cyclic) re-evaluation was cut short while it ran
+
+
+def run_rule(module, world, tier):
+    """evaluate another property's rule on the same world (memoised per world). Rules re-use each other's clauses; when
+    that makes a cycle (C02 re-uses a C09 clause, C09 re-uses a C02 clause) the inner request for a rule that is still being
+    evaluated gets an empty report - the clause it asks for is being evaluated by the outer one anyway. A result computed
+    under such cuts is only re-used where the same rules are being evaluated again (so that it would be cut the same way)."""
+    cache = world.__dict__.setdefault("_rule_cache", {})
+    key = (module.__name__, tier)
+    for (cuts, r) in cache.get(key, ()):
+        if cuts <= set(_ACTIVE):
+            return r
+    if module.__name__ in _ACTIVE:
+        for s_ in _CUTS:
+            s_.add(module.__name__)
+        return Report(module.__name__.rsplit(".", 1)[-1])
+    _ACTIVE.append(module.__name__)
+    _CUTS.append(set())
+    try:
+        r = module.check(world, tier)
+    finally:
+        _ACTIVE.pop()
+        cuts = _CUTS.pop()
+    cuts.discard(module.__name__)
+    cache.setdefault(key, []).append((frozenset(cuts), r))
+    return r
+
+
 def import_clause(world, tier, clause, module, cid, keys, what):
     """re-check clause `cid` of another property's rule and report its findings whose key contains one of `keys`
     (a shared structural clause that is a necessary condition of both properties)"""
-    r = module.check(world, tier)
-    found = False
+    r = run_rule(module, world, tier)
+    found = bool(module.__name__ in _ACTIVE)    # cut of a cycle: the outer evaluation of that rule covers the clause
     for cl in r.clauses:
         if cl.id == cid:
             found = True
